@@ -136,6 +136,7 @@ example :
     (s.jobs 0).state = .error ∧ s.regResult = some none ∧ (s.jobs 1).pc = .created := by decide
 
 /-- obligation on the current source: the three scheduler repairs are present (the model is run with these flags) -/
-theorem scheduler_flags : Gen.schedFlags.readyGuarded = true ∧ Gen.schedFlags.resubmitRegisters = true ∧ Gen.schedFlags.abortRechecks = true := by decide
+theorem scheduler_flags : Gen.schedFlags.readyGuarded = true ∧ Gen.schedFlags.resubmitRegisters = true ∧ Gen.schedFlags.abortRechecks = true ∧
+    Gen.schedFlags.abortReleases = true := by decide
 
 end XpmVerif.C05
